@@ -12,9 +12,10 @@ RULE = ('seeded random programs in which add_* / assignment calls of every kind 
         'dataset name, unsupported cast dtype, non-array data, bad frame channel lists) before and between valid calls of the same '
         'name; a rejected add_origin (with and without explicit reference) as the first origin call, objects around it, then the defining origin; compared with the history without the rejected calls. Distinct by (program index, number of rejected calls).')
 ASSUMPTIONS = []
-PARTIAL = ('failed WRITES: the clause "once the cause is removed the same file as a fresh specification" is checked by differential '
-           'execution (K-failed-write: 5 causes of failure, retry vs fresh specification), not proved: the model shows which mutations a '
-           'failed write leaves')
+PARTIAL = ('failed WRITES: proved that a failing write leaves sets, registries, object types and every given value / unit untouched and '
+           'can only add write-time defaults where nothing was given (C20_failed_write_keeps_the_specification); the clause "once the '
+           'cause is removed the same file as a fresh specification" is then checked by differential execution (K-failed-write: 5 causes '
+           'of failure, retry vs fresh specification) — derived values surviving into a later write with other data are known finding D9')
 
 
 def _drop_dangling(x, rejected):
